@@ -1,7 +1,8 @@
 (* Props/C19.v — property C19: replacement output = replace-all of each matching line.
    Only statements; every proof is one `exact`.  The Check lines pin the statements. *)
 From RG Require Import Base.Bytes Model.Interpolate Model.MatchIter Model.Replace
-  Spec.TemplateSpec Spec.ReplaceSpec Proofs.InterpolateProofs Proofs.ReplaceProofs.
+  Spec.TemplateSpec Spec.ReplaceSpec Proofs.InterpolateProofs Proofs.ReplaceProofs
+  Model.ReplaceGlue Proofs.ReplaceGlueProofs.
 
 (* 1. template expansion: the port of the regex library's interpolate in
       crates/matcher/src/interpolate.rs computes the reference grammar's expansion,
@@ -83,3 +84,104 @@ Proof. vm_compute. reflexivity. Qed.
 Check interpolate_eq_spec :
   forall (cap_text : N -> option bytes) (n2i : bytes -> option N) (t dst : bytes),
     interpolate cap_text n2i t dst = Some (dst ++ expand_spec cap_text n2i t).
+
+(* ---- the call site: StandardSink::matched -> Replacer::replace_all (Model/ReplaceGlue.v) ----
+
+   5. What the standard printer computes for a matched range (rs, re) of the searcher's buffer
+      under -r, for both kinds of search: the specification's replace-all of the range in the
+      context of the WINDOW the replacement pass looks at (multi-line: the buffer, cut
+      MAX_LOOK_AHEAD = 128 bytes after the range when at least 128 bytes follow; line search: the
+      buffer up to the end of the line's content).  The matches are those of the search of the
+      window from rs on that start inside the range; they must end inside the range (the
+      searcher's range covers its matches), else the Rust code panics (see 7). *)
+Theorem standard_replacement_eq_spec_window :
+  forall (captures_at : bytes -> nat -> option caps) (n2i : bytes -> option N)
+         (ml : bool) (lt : lineterm) (buf : bytes) (rs re : nat) (template : bytes) (l : list caps),
+    let hay := replace_haystack ml lt buf re in
+    rs <= Nat.min (length hay) re ->
+    (forall c, In c l -> fst (cap_span c) < re -> snd (cap_span c) <= Nat.min (length hay) re) ->
+    all_matches (captures_at hay) cap_span (length hay) rs = Some l ->
+    standard_matched_replace captures_at n2i ml lt buf (rs, re) template
+      = Some (assemble n2i hay template re rs l, assemble_spans n2i hay template re 0 rs l).
+Proof. exact standard_replacement_eq_spec_window_proof. Qed.
+Print Assumptions standard_replacement_eq_spec_window.
+
+(* 6. multi-line search, fewer than MAX_LOOK_AHEAD bytes after the range: the replaced text is
+      the replace-all of the range in the context of the WHOLE buffer — the matches are those of
+      the whole-buffer search (from rs on) that start inside the range; look-ahead past the end
+      of the matched lines is what the whole buffer gives.  `_partial`: the hypothesis on the
+      length is needed (7), and the search is restarted at rs (not carried over from the
+      previous range). *)
+Theorem standard_replacement_eq_spec_partial :
+  forall (captures_at : bytes -> nat -> option caps) (n2i : bytes -> option N)
+         (lt : lineterm) (buf : bytes) (rs re : nat) (template : bytes) (l : list caps),
+    length buf - re < MAX_LOOK_AHEAD ->
+    rs <= re <= length buf ->
+    (forall c, In c l -> fst (cap_span c) < re -> snd (cap_span c) <= re) ->
+    all_matches (captures_at buf) cap_span (length buf) rs = Some l ->
+    standard_matched_replace captures_at n2i true lt buf (rs, re) template
+      = Some (assemble n2i buf template re rs l, assemble_spans n2i buf template re 0 rs l).
+Proof. exact standard_replacement_eq_spec_partial_proof. Qed.
+Print Assumptions standard_replacement_eq_spec_partial.
+
+(* 6b. line search through the same call site: the window is the buffer up to the end of the
+       line's content and every match of a contract-obeying matcher ends inside it *)
+Theorem standard_replacement_line_mode :
+  forall (captures_at : bytes -> nat -> option caps) (n2i : bytes -> option N)
+         (lt : lineterm) (buf : bytes) (rs re : nat) (template : bytes) (l : list caps),
+    let hay := firstn (trim_line_terminator lt buf 0 re) buf in
+    rs <= length hay -> length hay <= re ->
+    matcher_ok (captures_at hay) cap_span (length hay) ->
+    all_matches (captures_at hay) cap_span (length hay) rs = Some l ->
+    standard_matched_replace captures_at n2i false lt buf (rs, re) template
+      = Some (assemble n2i hay template re rs l, assemble_spans n2i hay template re 0 rs l).
+Proof. exact standard_replacement_line_mode_proof. Qed.
+Print Assumptions standard_replacement_line_mode.
+
+(* 7. FINDING (class ReplacementWindowMatchEndsPastRange): 6 without the length hypothesis is
+      false.  For a matcher obeying the contract on every haystack, a buffer with 129 bytes after
+      the range and a range that covers all its whole-buffer matches, the replacement pass finds in
+      its 128-byte window a match that the whole buffer does not have, which starts inside the
+      range and ends after it; the Rust code then panics (slice index), the model yields None.
+      Replayed on rg:  printf 'ab\n%0128d%s\n' 0 yyy | tr 0 x > f; rg -U -r X 'b\n(?s:.{128})\z|a' f *)
+Theorem standard_replacement_eq_spec_refuted :
+  exists (captures_at : bytes -> nat -> option caps) buf rs re template l,
+    (forall hay, matcher_ok (captures_at hay) cap_span (length hay)) /\
+    rs <= re <= length buf /\
+    all_matches (captures_at buf) cap_span (length buf) rs = Some l /\
+    (forall c, In c l -> fst (cap_span c) < re -> snd (cap_span c) <= re) /\
+    standard_matched_replace captures_at (fun _ => None) true (LTByte 10) buf (rs, re) template = None.
+Proof. exact standard_replacement_eq_spec_refuted_proof. Qed.
+Print Assumptions standard_replacement_eq_spec_refuted.
+
+(* non-vacuity of 5/6: the matcher of `(\w+)\n\b` (a match must see the first byte of the NEXT
+   line) on "a\nb\n\n"; the range of the line "a\n" needs the byte 'b' that lies after the range. *)
+Definition la_word (b : N) : bool := ((97 <=? b) && (b <=? 122))%N.
+Definition la_matcher (hay : bytes) (p : nat) : option caps :=
+  match find (fun i => Nat.leb p i
+                       && (match nth_error hay i with Some b => la_word b | None => false end)
+                       && (match nth_error hay (i + 1) with Some 10%N => true | _ => false end)
+                       && (match nth_error hay (i + 2) with Some b => la_word b | None => false end))
+             (seq 0 (length hay)) with
+  | Some i => Some [Some (i, i + 2); Some (i, i + 1)]
+  | None => None
+  end.
+Example standard_replacement_example :
+  (* "a\nb\n\n", template "<$1>", range 0..2 (the line "a\n"): the look-ahead byte 'b' lies after the range *)
+  standard_matched_replace la_matcher (fun _ => None) true (LTByte 10) [97; 10; 98; 10; 10]%N (0, 2) [60; 36; 49; 62]%N
+    = Some ([60; 97; 62]%N, [(0, 3)])
+  /\ all_matches (la_matcher [97; 10; 98; 10; 10]%N) cap_span 5 0 = Some [[Some (0, 2); Some (0, 1)]]
+  /\ (* the same call on the matched lines alone (the seeded defect) finds nothing *)
+  standard_matched_replace la_matcher (fun _ => None) true (LTByte 10) [97; 10]%N (0, 2) [60; 36; 49; 62]%N
+    = Some ([97; 10]%N, []).
+Proof. vm_compute. repeat split; reflexivity. Qed.
+
+Check standard_replacement_eq_spec_partial :
+  forall (captures_at : bytes -> nat -> option caps) (n2i : bytes -> option N)
+         (lt : lineterm) (buf : bytes) (rs re : nat) (template : bytes) (l : list caps),
+    length buf - re < MAX_LOOK_AHEAD ->
+    rs <= re <= length buf ->
+    (forall c, In c l -> fst (cap_span c) < re -> snd (cap_span c) <= re) ->
+    all_matches (captures_at buf) cap_span (length buf) rs = Some l ->
+    standard_matched_replace captures_at n2i true lt buf (rs, re) template
+      = Some (assemble n2i buf template re rs l, assemble_spans n2i buf template re 0 rs l).
